@@ -32,10 +32,35 @@ def _data_uri(fmt, seed):
 
 FEATURES = ['list', 'table', 'flex', 'grid', 'float', 'image', 'image-jpeg', 'target-counter', 'running', 'footnote',
             'columns', 'quotes', 'counter-style', 'abs', 'var', 'orientation', 'inline-block', 'hyphens',
-            'inline-svg', 'svg-image', 'decorations']
+            'inline-svg', 'svg-image', 'decorations', 'attachment']
 # features whose code paths keep per-object or per-process state (the drawing code of SVG nodes works on attribute
 # dictionaries, set-valued computed values are iterated, images are cached): every job pool contains each of them
-STATEFUL_FEATURES = ['inline-svg', 'decorations', 'svg-image', 'image-jpeg']
+STATEFUL_FEATURES = ['inline-svg', 'decorations', 'svg-image', 'image-jpeg', 'attachment']
+
+
+class frozen_clock:
+    """`datetime.now()` as weasyprint/__init__.py reads it, frozen.  The dates of attachments embedded from a URL are the
+    wall clock of the moment the Attachment object is built (known finding attachment-dates-from-wall-clock): frozen
+    here so that everything else about documents with attachments - written twice, copied, rendered under other
+    histories and in other processes - stays comparable byte for byte.  The finding's replay runs unfrozen."""
+    MOMENT = (2020, 1, 2, 3, 4, 5)
+
+    def __enter__(self):
+        import datetime as datetime_module
+        import weasyprint
+        self.saved = weasyprint.datetime
+        moment = self.MOMENT
+
+        class Frozen(datetime_module.datetime):
+            @classmethod
+            def now(cls, tz=None):
+                return datetime_module.datetime(*moment, tzinfo=tz)
+        weasyprint.datetime = Frozen
+        return self
+
+    def __exit__(self, *args):
+        import weasyprint
+        weasyprint.datetime = self.saved
 
 
 def gen_svg(rng, tag, rewriting=False):
@@ -166,6 +191,17 @@ def gen_rich_doc(rng, force=()):
             body.append(f'<p><img src="{uri}" style="width:60px"> {text(1)} <img src="{uri}" style="width:30px"></p>')
             if rng.random() < 0.5:
                 body.append(f'<div style="height:20px;background:url({uri}) no-repeat"></div>')
+        elif feature == 'attachment':
+            # embedded files (a document with attachments can be written twice since a0bb005): the same file linked
+            # twice, another one, one the fetcher cannot load, and a document-level one (a <link> is read wherever it is)
+            payload = base64.b64encode(f'file {rng.randrange(3)}'.encode()).decode()
+            other = base64.b64encode(b'other file').decode()
+            body.append(f'<link rel="attachment" href="data:text/plain;base64,{other}" title="doc level">'
+                        f'<p><a rel="attachment" href="data:text/plain;base64,{payload}">{text(1)}</a> {text(1)} '
+                        f'<a rel="attachment" href="data:text/plain;base64,{payload}" download="b.txt">{text(1)}</a> '
+                        f'<a rel="attachment" href="data:application/octet-stream;base64,{other}">{text(1)}</a>'
+                        + (f' <a rel="attachment" href="missing-file.bin">{text(1)}</a>' if rng.random() < 0.3 else '')
+                        + '</p>')
         elif feature == 'decorations':
             # values that come from RULES (the job's user CSS object DECORATION_SHEET, shared between renders; the UA
             # sheet for u / s / ins / del): an element with its own lines below an ancestor with other lines, and the
@@ -400,18 +436,35 @@ def run_job(job, env=None, html=None, sheets=None, cache=None, counter_style=Non
     if cache is not None:
         call_options['cache'] = cache
     before = snapshot(html, sheets, options, font_config, sheet_list)
+    with frozen_clock():
+        return _render_and_write(job, html, sheets, options, options_before, call_options, sheet_list, font_config,
+                                 counter_style, write_twice, copy_first, before)
+
+
+def _render_and_write(job, html, sheets, options, options_before, call_options, sheet_list, font_config, counter_style,
+                      write_twice, copy_first, before):
     document = html.render(font_config, counter_style, **call_options)
     layout = layout_fingerprint(document)
     write_options = {k: v for k, v in options.items() if k != 'presentational_hints'}
     zoom = job.get('zoom', 1)
-    copied = copy_digest(document, zoom, write_options) if copy_first else None
-    pdf = document.write_pdf(zoom=zoom, pdf_identifier=IDENTIFIER, **write_options)
-    digest = hashlib.md5(pdf).hexdigest()
-    if not copy_first:
+    # the first write of a Document decides whether the job can be written at all (an exception propagates: an error
+    # result); a LATER write of the same Document (or of a copy sharing its pages and metadata) that raises is an
+    # outcome of its own - 'the same Document written again' must give the same bytes, not an exception
+    def later(write):
+        try:
+            return write()
+        except Exception as exc:  # noqa: BLE001
+            return f'error-after-an-earlier-write:{type(exc).__name__}'
+
+    def write_digest():
+        return hashlib.md5(document.write_pdf(zoom=zoom, pdf_identifier=IDENTIFIER, **write_options)).hexdigest()
+    if copy_first:
         copied = copy_digest(document, zoom, write_options)
-    again = None
-    if write_twice:
-        again = hashlib.md5(document.write_pdf(zoom=zoom, pdf_identifier=IDENTIFIER, **write_options)).hexdigest()
+        digest = later(write_digest)
+    else:
+        digest = write_digest()
+        copied = later(lambda: copy_digest(document, zoom, write_options))
+    again = later(write_digest) if write_twice else None
     after = snapshot(html, sheets, options, font_config, sheet_list)
     mutated = [name for name in before if before[name] != after[name]]
     if options != options_before:
